@@ -25,7 +25,7 @@ CHECKS["C01"] = dict(
 )
 CHECKS["C10"] = dict(
     level="exploration",
-    text="Seeded search over request methods x authorities x every outcome of the outbound attempt (connect refused/unreachable/timed out/never/EMFILE, resolver error/empty/never, policy refusal) on both protocols; the status/X-Warning table of the statement is the oracle, the response-head count and the egress census decide 'exactly one' and 'never looked up'.",
+    text="Seeded search over request methods x authorities x every outcome of the outbound attempt (connect refused/unreachable/timed out/never/EMFILE, resolver error/empty/never, policy refusal) on both protocols; the status/X-Warning table of the statement is the oracle, the response-head count and the egress census decide 'exactly one' and 'never looked up'; the multi-request sessions of the authentication scenario are part of the check and decide '407 on an authentication failure' whatever was answered before on the same session.",
     design="DESIGN.md section 8 (C10)",
     note="Trusted: the world's connect-error model (errno values), the h2 client. Durations within 2 ms of the establishment time-out are undecided. HTTP/3 not simulated.",
 )
@@ -72,7 +72,7 @@ CHECKS["C16"] = dict(
 )
 CHECKS["C20"] = dict(
     level="exploration",
-    text="The scenarios of C01, C10, C17, C18, C08, C02 and C05 re-run with all log records captured at Trace level and unique canaries in every secret-bearing field; any record containing a canary verbatim, base64-decoded or hex-dumped is a violation keyed by its source line.",
+    text="The scenarios of C01, C10, C17, C18, C08, C02, C05 and C15 re-run with all log records captured at Trace level and unique canaries in every secret-bearing field; any record containing a canary verbatim, base64-decoded or hex-dumped is a violation keyed by its source line.",
     design="DESIGN.md section 8 (C20)",
     note="Only records reaching the log facade are seen; paths the other scenarios do not reach are not covered. Two known findings (trace records of the rustls dependency that print the server name) are listed in known_findings.json. HTTP/3 not simulated.",
 )
@@ -126,7 +126,7 @@ CHECKS["C11"] = dict(
 
 CHECKS["C19"] = dict(
     level="exploration",
-    text="Seeded search over the instants of registration, submission (once or twice), termination and completion waiting for bare participants (through a door that registers exactly as Tunnel::listen does), real HTTP/1.1 and HTTP/2 sessions with tunnels in flight and Core::listen(), all sharing one Shutdown; instants cluster within a microsecond of the submission so every order is reached; the oracle compares who noticed, how sessions wound down and when completion() returned with the instants participants actually finished.",
+    text="Seeded search over the instants of registration, submission (once or twice), termination and completion waiting for bare participants (through a door that registers exactly as Tunnel::listen does), real HTTP/1.1 and HTTP/2 sessions with tunnels in flight (half of the HTTP/2 clients behind 1-3 ms of one-way latency, sending a request that crosses the GOAWAY on the wire) and Core::listen(), all sharing one Shutdown; instants cluster within a microsecond of the submission so every order is reached; the oracle compares who noticed, how sessions wound down and when completion() returned with the instants participants actually finished.",
     design="DESIGN.md section 8 (C19)",
     note="Trusted: the h2 client's report of how its connection ended. endpoint/src/main.rs is not run.",
 )
